@@ -17,7 +17,7 @@ COMPONENTS = {
     'reference': ['sim/history.py RefHistory model', 'sim/ref_format.py'],
 }
 ASSUMPTIONS = ['snapshot timestamps are distinct', 'the process time zone is varied per case (TZ + tzset), incl. histories across DST switches', 'notes and paths contain no tab / newline (table parsing)']
-PROBES = ['delete', 'dst_switch_history']
+PROBES = ['clock_stepped_back', 'delete', 'dst_switch_history']
 TIERS = {'quick': {'budget_s': 70, 'batch': 10}, 'thorough': {'budget_s': 900, 'batch': 20}}
 ORACLES = ('store', 'selection', 'listing')
 
